@@ -282,7 +282,11 @@ impl BitvectorExtended for Bitvector {
             ))
         } else {
             let result = self.clone().into_checked_mul(rhs).unwrap();
-            if result.clone().into_checked_sdiv(self).unwrap() != *rhs {
+            // `-1 * MIN` overflows, but `MIN / -1` wraps around to `MIN` again,
+            // so the division test alone does not notice it.
+            let is_minus_one_times_min = *self == -Bitvector::one(self.width())
+                && *rhs == Bitvector::signed_min_value(self.width());
+            if is_minus_one_times_min || result.clone().into_checked_sdiv(self).unwrap() != *rhs {
                 Ok((result, true))
             } else {
                 Ok((result, false))
